@@ -244,7 +244,14 @@ func (w *Writer) SyncAndClose() error {
 }
 
 func Write(path string, offset int64, newVersion Version, opts Params, index []Item) (retErr error) {
-	w, err := OpenWriter(path, offset, newVersion, opts)
+	// written to a temp file that is moved in place once complete, so that a crash
+	// never leaves a partial index behind: it would be taken for the index of a shorter log
+	tmpPath := path + ".tmp"
+	if err := os.Remove(tmpPath); err != nil && !errors.Is(err, os.ErrNotExist) {
+		return fmt.Errorf("write index remove stale temp: %w", err)
+	}
+
+	w, err := OpenWriter(tmpPath, offset, newVersion, opts)
 	if err != nil {
 		return err
 	}
@@ -281,7 +288,13 @@ func Write(path string, offset int64, newVersion Version, opts Params, index []I
 		}
 	}
 
-	return w.SyncAndClose()
+	if err := w.SyncAndClose(); err != nil {
+		return err
+	}
+	if err := os.Rename(tmpPath, path); err != nil {
+		return fmt.Errorf("write index rename: %w", err)
+	}
+	return nil
 }
 
 func Read(path string, offset int64, opts Params) ([]Item, error) {
